@@ -1,7 +1,7 @@
 """All contracts, by name."""
-from . import symbolic_nodes, negation, quantifiers, mappings, toplevel, cache, required, predicate_form, hashed, constructors, aggregations, rules, rule_build, registry_c14
+from . import symbolic_nodes, negation, quantifiers, mappings, toplevel, cache, required, predicate_form, hashed, constructors, aggregations, rules, rule_build, registry_c14, inference
 
-MODULES = [symbolic_nodes, negation, quantifiers, mappings, toplevel, cache, required, predicate_form, hashed, constructors, aggregations, rules, rule_build, registry_c14]
+MODULES = [symbolic_nodes, negation, quantifiers, mappings, toplevel, cache, required, predicate_form, hashed, constructors, aggregations, rules, rule_build, registry_c14, inference]
 
 
 def all_contracts():
@@ -166,6 +166,19 @@ CLAIMS.update({
                      "__new__); IndexedCache's flat store and the no-domain branch of Variable._evaluate__ are covered by the "
                      "bounded registry-history stand-in (random histories of concrete / symbolic construction, clearing, "
                      "queries at once and deferred, rule inference, over a hierarchy four levels deep with undecorated subclasses and a hand-written __init__), not proved"),
+    'C11': dict(level='other', text="The constructing branch of an inferred variable, every obligation from the current source: "
+                "Variable._instantiate_new_values_and_yield_results_ (all constructor arguments bound) calls the class exactly "
+                "once per binding with exactly the head's fields, field f receiving the very object bound for its expression "
+                "in that binding's row (.value of the HashedValue, no copy, rows never mixed) and hands the instance on with the "
+                "same rows; Variable._process_output_and_update_values_ yields exactly one row for an inferred instance whatever "
+                "its truthiness, binding the variable to that very instance and keeping every argument binding; "
+                "Infer.__post_init__ marks every selected variable as to-be-inferred.",
+                note="level other: that the argument rows are the bindings of ONE satisfying assignment and that there is one call "
+                     "per assignment is the composition with the interface contract of the argument expressions and of the "
+                     "descriptor loop (A9), plus itertools.product in generate_combinations (A6): exercised by the bounded "
+                     "inference stand-in only; constructor arguments still unbound at the call "
+                     "(_bind_unbound_kwargs_and_yield_results_) and symbolic_new's rule-mode branch are not under contract; "
+                     "nested constructors in a head are not covered (semantics not settled by the property)"),
 })
 NOT_APPLICABLE = {}
 
@@ -209,7 +222,9 @@ ORACLES = {
     'C17': [_oracle('concatenate value and membership / negated membership against it', 200, 3000, kind='concat'),
             _oracle('concatenate with falsy elements', 100, 1500, kind='concat', falsy=True)],
     'C18': [_oracle('meaning preserving rewrites (swap, re-associate, mirror, contains/in_, declaration order, domain permutation)', 250, 4000, kind='rewrite')],
-    'C11': [_oracle('infer(entity(T(f1=e1, f2=e2), conditions)) in rule mode', 200, 3000, kind='infer')],
+    'C11': [_oracle('infer(entity(T(a=x, b=y|y.attr, tag=const), conditions)): constants (None, falsy, iterable), falsy classes, '
+                    'bodies with disjunction / negation, zero-solution bodies', 250, 4000, kind='infer'),
+            _oracle('inference, conjunctive bodies only', 100, 1500, kind='infer', neg=False, depth=1)],
     'C12': [_oracle('rule trees: refinement / alternative nested two levels, six shapes', 250, 4000, kind='rdr'),
             _oracle('random rule trees: up to 5 rules, several refinements / alternatives per block, nested two levels', 300, 5000,
                     kind='rdrtree', rules=5, depth=2),
